@@ -1,0 +1,204 @@
+//go:build verif
+
+// Contracts for package data/ethereum (C15 tracker votes / thresholds / tracker stores, C18 safety of the vote index).
+// Comment-only file, read by /verif/govc.
+
+package ethereum
+
+// constants of this package for use in other packages' contracts
+//@ ghost func trkStNew() TrackerState = New
+//@ ghost func trkStFinalized() TrackerState = Finalized
+//@ ghost func trkStReleased() TrackerState = Released
+//@ ghost func trkStFailed() TrackerState = Failed
+//@ ghost func trkPtLock() ProcessType = ProcessTypeLock
+//@ ghost func trkPtRedeem() ProcessType = ProcessTypeRedeem
+//@ ghost func trkPtLockERC() ProcessType = ProcessTypeLockERC
+//@ ghost func trkPtRedeemERC() ProcessType = ProcessTypeRedeemERC
+//@ ghost func trkPxFailed() PrefixType = PrefixFailed
+//@ ghost func trkPxPassed() PrefixType = PrefixPassed
+//@ ghost func trkPxOngoing() PrefixType = PrefixOngoing
+
+// ---------------------------------------------------------------- vote vocabulary
+//
+// Slot i of t.FinalityVotes belongs to witness i: 0 = no vote yet, 1 = yes, 2 = no.
+//
+// trkCntV(a,lo,hi,v) : number of positions p in [lo, hi) with a[p] == v  (recursive definition: the two axioms below)
+// trkVotesOf(t,n,v)  : number of the first n slots of t.FinalityVotes that hold v
+// trkYesVotes(t) / trkNoVotes(t) : number of slots that hold 1 (yes) / 2 (no)
+// trkWf(t)           : one vote slot per recorded witness
+// trkDistinctW(t)    : no address occurs twice in the witness list
+// trkIsWitness(t, a) : a is one of the recorded witnesses
+//@ ghost func trkCntV(a array[int]int, lo int, hi int, v int) int
+//@ axiom forall a array[int]int, lo int, hi int, v int :: hi <= lo ==> trkCntV(a, lo, hi, v) == 0                                                  // C15.count-def
+//@ axiom forall a array[int]int, lo int, hi int, v int :: hi > lo ==> trkCntV(a, lo, hi, v) == trkCntV(a, lo, hi - 1, v) + (a[hi - 1] == v ? 1 : 0)   // C15.count-def
+
+//@ ghost func trkVotesOf(t *Tracker, n int, v int) int = trkCntV(elems(t.FinalityVotes), off(t.FinalityVotes), off(t.FinalityVotes) + n, v)
+//@ ghost func trkYesVotes(t *Tracker) int = trkVotesOf(t, len(t.FinalityVotes), 1)
+//@ ghost func trkNoVotes(t *Tracker) int = trkVotesOf(t, len(t.FinalityVotes), 2)
+//@ ghost func trkWf(t *Tracker) bool = t != nil && len(t.FinalityVotes) == len(t.Witnesses)
+//@ ghost func trkDistinctW(t *Tracker) bool = forall i int, j int :: 0 <= i && i < len(t.Witnesses) && 0 <= j && j < len(t.Witnesses) && i != j ==> str(t.Witnesses[i]) != str(t.Witnesses[j])
+//@ ghost func trkIsWitness(t *Tracker, a bytes) bool = exists j int :: 0 <= j && j < len(t.Witnesses) && str(t.Witnesses[j]) == str(a)
+
+// trkStorable(t): the store invariant every writer must establish and every reader may rely on
+//@ ghost func trkStorable(t *Tracker) bool = trkWf(t) && trkDistinctW(t) && 2 * len(t.Witnesses) <= 9223372036854775807
+
+// "more than two thirds": 3 * votes > 2 * witnesses  (the code computes votes >= floor(2n/3) + 1)
+//@ ghost func trkFinalizedT(t *Tracker) bool = 3 * trkYesVotes(t) > 2 * len(t.Witnesses)
+//@ ghost func trkFailedT(t *Tracker) bool = 3 * trkNoVotes(t) > 2 * len(t.Witnesses)
+
+// ---------------------------------------------------------------- Tracker methods
+
+//@ func (*Tracker).GetVotes
+//@   safety C18
+//@   requires t != nil                                                                                        // C18.nil-tracker
+//@   modifies nothing
+//@   ensures yes == trkYesVotes(t) && no == trkNoVotes(t) && 0 <= yes && 0 <= no && yes + no <= len(t.FinalityVotes)      // C15.vote-count
+//@   invariant loop1: 0 <= $i && $i <= len(t.FinalityVotes) && 0 <= ycnt && 0 <= ncnt && ycnt + ncnt <= $i   // C15.vote-count
+//@   invariant loop1: ycnt == trkVotesOf(t, $i, 1) && ncnt == trkVotesOf(t, $i, 2)  // C15.vote-count
+
+//@ func (*Tracker).Finalized
+//@   safety C18
+//@   requires t != nil                                                                                        // C18.nil-tracker
+//@   modifies nothing
+//@   ensures 0 <= trkYesVotes(t) && 0 <= trkNoVotes(t) && trkYesVotes(t) + trkNoVotes(t) <= len(t.FinalityVotes)           // C15.vote-count
+//@   ensures 2 * len(t.Witnesses) <= 9223372036854775807 ==> result == trkFinalizedT(t)                                                                          // C15.threshold
+
+//@ func (*Tracker).Failed
+//@   safety C18
+//@   requires t != nil                                                                                        // C18.nil-tracker
+//@   modifies nothing
+//@   ensures 0 <= trkYesVotes(t) && 0 <= trkNoVotes(t) && trkYesVotes(t) + trkNoVotes(t) <= len(t.FinalityVotes)           // C15.vote-count
+//@   ensures 2 * len(t.Witnesses) <= 9223372036854775807 ==> result == trkFailedT(t)                                                                             // C15.threshold
+
+//@ func (*Tracker).CheckIfVoted
+//@   safety C18
+//@   requires trkWf(t)                                                                                    // C18.tracker-wf
+//@   modifies nothing
+//@   ensures index == -1 ==> !voted && !trkIsWitness(t, node)                                                    // C15.voted-lookup
+//@   ensures index != -1 ==> 0 <= index && index < len(t.Witnesses) && str(t.Witnesses[index]) == str(node) && voted == (t.FinalityVotes[index] > 0)   // C15.voted-lookup
+//@   ensures index != -1 ==> forall j int :: 0 <= j && j < index ==> str(t.Witnesses[j]) != str(node)         // C15.voted-lookup
+//@   ensures index != -1 ==> 0 <= t.FinalityVotes[index] && t.FinalityVotes[index] <= 255                     // C15.voted-lookup
+//@   invariant loop1: 0 <= $i && $i <= len(t.Witnesses)                                                       // C15.voted-lookup
+//@   invariant loop1: forall j int :: 0 <= j && j < $i ==> str(t.Witnesses[j]) != str(node)                   // C15.voted-lookup
+
+// AddVote (property C15: "votes of non-witnesses or repeated votes do not count"; "AddVote only fills the slot of the
+// matching witness and refuses a second vote"). `index >= 0` is the C18 obligation of every caller: the code only
+// checks the upper bound, a negative index panics in t.Witnesses[index].
+//@ func (*Tracker).AddVote
+//@   safety C18
+//@   requires trkWf(t)                                                                                    // C18.tracker-wf
+//@   requires index >= 0                                                                                      // C18.vote-index
+//@   requires trkDistinctW(t)                                                                                    // C15.witness-distinct
+//@   modifies elems(t.FinalityVotes)
+//@   ensures len(t.FinalityVotes) == old(len(t.FinalityVotes)) && trkWf(t)                                // C15.vote-slot
+//@   ensures err == nil ==> index < len(t.Witnesses)                                                          // C15.vote-slot
+//@   ensures err == nil && str(t.Witnesses[index]) == str(addr) ==> t.FinalityVotes[index] == (vote ? 1 : 2)  // C15.vote-slot
+//@   ensures err == nil && str(t.Witnesses[index]) == str(addr) && (forall k int :: 0 <= k && k < index ==> str(t.Witnesses[k]) != str(addr)) ==> old(t.FinalityVotes[index]) == 0   // C15.second-vote-refused
+//@   ensures err == nil && str(t.Witnesses[index]) == str(addr) ==> elems(t.FinalityVotes) == old(elems(t.FinalityVotes))[off(t.FinalityVotes) + index := (vote ? 1 : 2)]   // C15.vote-slot
+//@   ensures err != nil || str(t.Witnesses[index]) != str(addr) ==> elems(t.FinalityVotes) == old(elems(t.FinalityVotes))   // C15.rejected-vote-noop
+//@   ensures !trkIsWitness(t, addr) ==> elems(t.FinalityVotes) == old(elems(t.FinalityVotes)) && trkYesVotes(t) == old(trkYesVotes(t)) && trkNoVotes(t) == old(trkNoVotes(t))   // C15.non-witness-noop
+//@   ensures (exists j int :: 0 <= j && j < len(t.Witnesses) && str(t.Witnesses[j]) == str(addr) && old(t.FinalityVotes[j]) > 0 && (forall k int :: 0 <= k && k < j ==> str(t.Witnesses[k]) != str(addr))) ==> err != nil   // C15.second-vote-refused
+//@   ensures forall j int :: 0 <= j && j < len(t.Witnesses) && str(t.Witnesses[j]) == str(addr) && old(t.FinalityVotes[j]) > 0 ==> err != nil   // C15.second-vote-refused
+//@   ensures err == nil && str(t.Witnesses[index]) == str(addr) ==> old(t.FinalityVotes[index]) == 0          // C15.second-vote-refused
+
+//@ func NewTracker
+//@   safety C18
+//@   modifies nothing
+//@   ensures result != nil && fresh(result) && trkWf(result) && result.Type == typ && result.State == New && result.TrackerName == name   // C15.new-tracker
+//@   ensures str(result.ProcessOwner) == str(owner) && str(result.SignedETHTx) == str(signedEthTx) && result.Witnesses == witnesses             // C15.new-tracker
+//@   ensures forall j int :: 0 <= j && j < len(result.FinalityVotes) ==> result.FinalityVotes[j] == 0                                          // C15.new-tracker
+
+//@ func (Tracker).NextStep
+//@   safety C18
+//@   modifies nothing
+//@   ensures (t.Type == ProcessTypeLock || t.Type == ProcessTypeLockERC) && t.State == Finalized ==> result == MINTING       // C15.next-step
+//@   ensures t.State == Released && t.Type >= ProcessTypeLock && t.Type <= ProcessTypeRedeemERC ==> result == CLEANUP        // C15.next-step
+//@   ensures t.State == Failed && t.Type >= ProcessTypeLock && t.Type <= ProcessTypeRedeemERC ==> result == CLEANUPFAILED    // C15.next-step
+
+// ---------------------------------------------------------------- tracker stores
+//
+// One TrackerStore object serves three key spaces (ongoing / passed / failed), selected by ts.prefix.
+// Ghost model, indexed by (prefix string, tracker name):
+//   trkHas(ts)[p][n]  : a tracker named n is recorded under prefix p
+//   trkType / trkState / trkOwner / trkTx / trkTo (ts)[p][n] : its Type, State, ProcessOwner, SignedETHTx, To fields
+//   trkN / trkYes / trkNo (ts)[p][n] : number of witnesses / yes votes / no votes of that record
+//   trkWitAt(ts)[p][n][i] : address (as string) of witness i of that record, for 0 <= i < trkN
+//   trkSlot(ts)[p][n][i]  : vote slot i of that record (0 none, 1 yes, 2 no)
+// trkNameStr(n)       : the key bytes of a tracker name (function of the name)
+// trkRecorded(ts,p,t) : the record (p, t.TrackerName) holds exactly the in-memory tracker t
+// trkPfx(ts, k)       : the prefix string selected by PrefixType k
+//@ ghost func trkNameStr(n ethereum.TrackerName) string
+// the tracker name of an external transaction: ethcommon.BytesToHash(ETHTxn) is a function of the bytes (extern contract, assumed)
+//@ ghost func trkNameOf(b string) ethereum.TrackerName
+//@ assume func github.com/ethereum/go-ethereum/common.BytesToHash
+//@   modifies nothing
+//@   ensures result == trkNameOf(str(b))
+//@ model trkHas(*TrackerStore) array[string]array[string]bool
+//@ model trkType(*TrackerStore) array[string]array[string]int
+//@ model trkState(*TrackerStore) array[string]array[string]int
+//@ model trkOwner(*TrackerStore) array[string]array[string]string
+//@ model trkTx(*TrackerStore) array[string]array[string]string
+//@ model trkTo(*TrackerStore) array[string]array[string]string
+//@ model trkN(*TrackerStore) array[string]array[string]int
+//@ model trkYes(*TrackerStore) array[string]array[string]int
+//@ model trkNo(*TrackerStore) array[string]array[string]int
+//@ model trkWitAt(*TrackerStore) array[string]array[string]array[int]string
+//@ model trkSlot(*TrackerStore) array[string]array[string]array[int]int
+//@ ghost func trkPfx(ts *TrackerStore, k int) string = k == PrefixFailed ? str(ts.prefixfailed) : (k == PrefixPassed ? str(ts.prefixsuccess) : str(ts.prefixongoing))
+//@ ghost func trkRecorded(ts *TrackerStore, p string, t *Tracker) bool = trkHas(ts)[p][trkNameStr(t.TrackerName)] && trkType(ts)[p][trkNameStr(t.TrackerName)] == t.Type && trkState(ts)[p][trkNameStr(t.TrackerName)] == t.State && trkOwner(ts)[p][trkNameStr(t.TrackerName)] == str(t.ProcessOwner) && trkTx(ts)[p][trkNameStr(t.TrackerName)] == str(t.SignedETHTx) && trkTo(ts)[p][trkNameStr(t.TrackerName)] == str(t.To) && trkN(ts)[p][trkNameStr(t.TrackerName)] == len(t.Witnesses) && trkYes(ts)[p][trkNameStr(t.TrackerName)] == trkYesVotes(t) && trkNo(ts)[p][trkNameStr(t.TrackerName)] == trkNoVotes(t) && (forall i int :: 0 <= i && i < len(t.Witnesses) ==> trkWitAt(ts)[p][trkNameStr(t.TrackerName)][i] == str(t.Witnesses[i]) && trkSlot(ts)[p][trkNameStr(t.TrackerName)][i] == t.FinalityVotes[i])
+//@ ghost func trkIn(ts *TrackerStore, k int, n ethereum.TrackerName) bool = trkHas(ts)[trkPfx(ts, k)][trkNameStr(n)]
+//@ ghost func trkFinalizedIn(ts *TrackerStore, k int, n ethereum.TrackerName) bool = 3 * trkYes(ts)[trkPfx(ts, k)][trkNameStr(n)] > 2 * trkN(ts)[trkPfx(ts, k)][trkNameStr(n)]
+//@ ghost func trkFailedIn(ts *TrackerStore, k int, n ethereum.TrackerName) bool = 3 * trkNo(ts)[trkPfx(ts, k)][trkNameStr(n)] > 2 * trkN(ts)[trkPfx(ts, k)][trkNameStr(n)]
+
+// The four typed accessors are ASSUMED. They cannot be proved above the C09 contracts of storage.State because the
+// state key is built with (common.Hash).Bytes(), an external go-ethereum method that the engine models as arbitrary
+// bytes (not a function of the name), and because decoding rests on T-SER. What is assumed:
+//  * Get returns a fresh decoded copy of the record (fresh backing arrays), which satisfies the store invariant
+//    (wfTracker, distinct witnesses, witness count small enough for 2n not to overflow) that Set demands of every writer;
+//  * Set overwrites exactly the record (ts.prefix, tracker.TrackerName);
+//  * Exists: only the direction `false ==> absent` (C09 D-09a: a tombstone may read as present; gas exhaustion is not modelled);
+//  * Delete removes exactly the record (ts.prefix, key) when it reports no error.
+//@ assume func (*TrackerStore).Get
+//@   requires ts != nil                                                                                       // C18.nil-store
+//@   modifies nothing
+//@   ensures err == nil ==> result0 != nil && fresh(result0) && fresh(arr(result0.FinalityVotes)) && fresh(arr(result0.Witnesses)) && trkHas(ts)[str(ts.prefix)][trkNameStr(key)]
+//@   ensures err == nil ==> result0.Type == trkType(ts)[str(ts.prefix)][trkNameStr(key)] && result0.State == trkState(ts)[str(ts.prefix)][trkNameStr(key)] && result0.TrackerName == key
+//@   ensures err == nil ==> str(result0.SignedETHTx) == trkTx(ts)[str(ts.prefix)][trkNameStr(key)] && str(result0.ProcessOwner) == trkOwner(ts)[str(ts.prefix)][trkNameStr(key)] && str(result0.To) == trkTo(ts)[str(ts.prefix)][trkNameStr(key)]
+//@   ensures err == nil ==> trkWf(result0) && trkDistinctW(result0) && 2 * len(result0.Witnesses) <= 9223372036854775807
+//@   ensures err == nil ==> len(result0.Witnesses) == trkN(ts)[str(ts.prefix)][trkNameStr(key)] && trkYesVotes(result0) == trkYes(ts)[str(ts.prefix)][trkNameStr(key)] && trkNoVotes(result0) == trkNo(ts)[str(ts.prefix)][trkNameStr(key)]
+
+//@   ensures err == nil ==> forall i int :: 0 <= i && i < len(result0.Witnesses) ==> str(result0.Witnesses[i]) == trkWitAt(ts)[str(ts.prefix)][trkNameStr(key)][i] && result0.FinalityVotes[i] == trkSlot(ts)[str(ts.prefix)][trkNameStr(key)][i]
+
+//@ assume func (*TrackerStore).Set
+//@   requires ts != nil && trkWf(tracker) && trkDistinctW(tracker) && 2 * len(tracker.Witnesses) <= 9223372036854775807      // C15.store-inv
+//@   modifies trkHas(ts), trkType(ts), trkState(ts), trkOwner(ts), trkTx(ts), trkTo(ts), trkN(ts), trkYes(ts), trkNo(ts), trkWitAt(ts), trkSlot(ts), vHas(ts.state), vVal(ts.state)
+//@   ensures result == nil ==> trkHas(ts) == old(trkHas(ts))[str(ts.prefix) := old(trkHas(ts))[str(ts.prefix)][trkNameStr(tracker.TrackerName) := true]]
+//@   ensures result == nil ==> trkType(ts) == old(trkType(ts))[str(ts.prefix) := old(trkType(ts))[str(ts.prefix)][trkNameStr(tracker.TrackerName) := tracker.Type]]
+//@   ensures result == nil ==> trkState(ts) == old(trkState(ts))[str(ts.prefix) := old(trkState(ts))[str(ts.prefix)][trkNameStr(tracker.TrackerName) := tracker.State]]
+//@   ensures result == nil ==> trkOwner(ts) == old(trkOwner(ts))[str(ts.prefix) := old(trkOwner(ts))[str(ts.prefix)][trkNameStr(tracker.TrackerName) := str(tracker.ProcessOwner)]]
+//@   ensures result == nil ==> trkTx(ts) == old(trkTx(ts))[str(ts.prefix) := old(trkTx(ts))[str(ts.prefix)][trkNameStr(tracker.TrackerName) := str(tracker.SignedETHTx)]]
+//@   ensures result == nil ==> trkTo(ts) == old(trkTo(ts))[str(ts.prefix) := old(trkTo(ts))[str(ts.prefix)][trkNameStr(tracker.TrackerName) := str(tracker.To)]]
+//@   ensures result == nil ==> trkN(ts) == old(trkN(ts))[str(ts.prefix) := old(trkN(ts))[str(ts.prefix)][trkNameStr(tracker.TrackerName) := len(tracker.Witnesses)]]
+//@   ensures result == nil ==> trkYes(ts) == old(trkYes(ts))[str(ts.prefix) := old(trkYes(ts))[str(ts.prefix)][trkNameStr(tracker.TrackerName) := trkYesVotes(tracker)]]
+//@   ensures result == nil ==> trkNo(ts) == old(trkNo(ts))[str(ts.prefix) := old(trkNo(ts))[str(ts.prefix)][trkNameStr(tracker.TrackerName) := trkNoVotes(tracker)]]
+//@   ensures result == nil ==> forall i int :: 0 <= i && i < len(tracker.Witnesses) ==> trkWitAt(ts)[str(ts.prefix)][trkNameStr(tracker.TrackerName)][i] == str(tracker.Witnesses[i]) && trkSlot(ts)[str(ts.prefix)][trkNameStr(tracker.TrackerName)][i] == tracker.FinalityVotes[i]
+//@   ensures forall q string, m string :: !(q == str(ts.prefix) && m == trkNameStr(tracker.TrackerName)) ==> trkWitAt(ts)[q][m] == old(trkWitAt(ts))[q][m] && trkSlot(ts)[q][m] == old(trkSlot(ts))[q][m]
+//@   ensures result != nil ==> trkWitAt(ts) == old(trkWitAt(ts)) && trkSlot(ts) == old(trkSlot(ts))
+//@   ensures result != nil ==> trkHas(ts) == old(trkHas(ts)) && trkType(ts) == old(trkType(ts)) && trkState(ts) == old(trkState(ts)) && trkOwner(ts) == old(trkOwner(ts)) && trkTx(ts) == old(trkTx(ts)) && trkTo(ts) == old(trkTo(ts)) && trkN(ts) == old(trkN(ts)) && trkYes(ts) == old(trkYes(ts)) && trkNo(ts) == old(trkNo(ts))
+
+//@ assume func (*TrackerStore).Exists
+//@   requires ts != nil                                                                                       // C18.nil-store
+//@   modifies nothing
+//@   ensures !result ==> !trkHas(ts)[str(ts.prefix)][trkNameStr(key)]
+
+//@ assume func (*TrackerStore).Delete
+//@   requires ts != nil                                                                                       // C18.nil-store
+//@   modifies trkHas(ts), vHas(ts.state), vVal(ts.state)
+//@   ensures result1 == nil ==> trkHas(ts) == old(trkHas(ts))[str(ts.prefix) := old(trkHas(ts))[str(ts.prefix)][trkNameStr(key) := false]]
+//@   ensures result1 != nil ==> trkHas(ts) == old(trkHas(ts))
+
+//@ func (*TrackerStore).WithPrefixType
+//@   safety C18
+//@   requires ts != nil                                                                                       // C18.nil-store
+//@   modifies ts.prefix
+//@   ensures result == ts && str(ts.prefix) == trkPfx(ts, prefix) || (prefix != PrefixFailed && prefix != PrefixPassed && prefix != PrefixOngoing && result == ts && ts.prefix == old(ts.prefix))   // C15.store-select
